@@ -266,26 +266,29 @@ pub proof fn lemma_stride_bound(r: int)
     }
 }
 
-/// one merge of compact(): k adjacent entries that are exactly the children of p are replaced by p
-pub proof fn lemma_merge_step(cur: Seq<u64>, done: Seq<u64>, i: int, k: int, parent: u64, p: A5Cell)
-    requires
-        0 <= i, i + k <= cur.len(), k == group_size(p.resolution + 1), valid(p), p.resolution <= 28,
-        parent == enc(p),
-        forall|jj: int| 0 <= jj < k ==> #[trigger] cur[i + jj] == enc(sibling(p, jj)),
-        all_canonical(done + cur.subrange(i, cur.len() as int)),
+pub open spec fn merge_pre(cur: Seq<u64>, done: Seq<u64>, i: int, k: int, parent: u64, p: A5Cell) -> bool {
+    &&& 0 <= i && i + k <= cur.len() && k == group_size(p.resolution + 1) && valid(p) && p.resolution <= 28
+    &&& parent == enc(p)
+    &&& forall|jj: int| 0 <= jj < k ==> #[trigger] cur[i + jj] == enc(sibling(p, jj))
+    &&& all_canonical(done + cur.subrange(i, cur.len() as int))
+}
+
+/// facts shared by the merge lemmas: the k entries decode to the siblings; everything else keeps its place
+pub proof fn lemma_merge_facts(cur: Seq<u64>, done: Seq<u64>, i: int, k: int, parent: u64, p: A5Cell)
+    requires merge_pre(cur, done, i, k, parent, p),
     ensures
-        all_canonical(done.push(parent) + cur.subrange(i + k, cur.len() as int)),
-        forall|m: int| max_res_le(done + cur.subrange(i, cur.len() as int), m)
-            ==> max_res_le(done.push(parent) + cur.subrange(i + k, cur.len() as int), m),
-        forall|y: A5Cell| valid(y) && max_res_le(done + cur.subrange(i, cur.len() as int), y.resolution as int)
-            ==> (covers(done.push(parent) + cur.subrange(i + k, cur.len() as int), y)
-                 <==> covers(done + cur.subrange(i, cur.len() as int), y)),                       // [C08:merge-preserves-cover]
-        antichain(done + cur.subrange(i, cur.len() as int))
-            ==> antichain(done.push(parent) + cur.subrange(i + k, cur.len() as int)),            // [C08:merge-preserves-antichain]
+        ({ let comb = done + cur.subrange(i, cur.len() as int);
+           let comb2 = done.push(parent) + cur.subrange(i + k, cur.len() as int);
+           let dl = done.len() as int;
+           &&& forall|jj: int| 0 <= jj < k ==> #[trigger] at(comb, dl, jj) == enc(sibling(p, jj)) && res_of(at(comb, dl, jj)) == p.resolution + 1
+                   && dec(at(comb, dl, jj)) == sibling(p, jj)
+           &&& forall|a: int| 0 <= a < comb2.len() && a != dl ==> #[trigger] comb2[a] == comb[if a < dl { a } else { a + k - 1 }]
+           &&& comb2[dl] == parent && comb2.len() == comb.len() - k + 1 && comb.len() >= dl + k
+           &&& canonical(parent) && dec(parent) == p && res_of(parent) == p.resolution
+           &&& res_of(comb[dl]) == p.resolution + 1 }),
 {
     let n = cur.len() as int;
     let comb = done + cur.subrange(i, n);
-    let comb2 = done.push(parent) + cur.subrange(i + k, n);
     let dl = done.len() as int;
     lemma_dec_enc(p);
     lemma_res_of_enc(p);
@@ -296,15 +299,22 @@ pub proof fn lemma_merge_step(cur: Seq<u64>, done: Seq<u64>, i: int, k: int, par
     }
     assert(res_of(at(comb, dl, 0)) == p.resolution + 1);
     assert(at(comb, dl, 0) == comb[dl]);
-    // position map comb2 -> comb for everything but the parent
-    assert forall|a: int| 0 <= a < comb2.len() && a != dl implies
-        comb2[a] == comb[if a < dl { a } else { a + k - 1 }] by {}
-    assert(comb2[dl] == parent);
-    assert(canonical(parent));
-    assert(all_canonical(comb2)) by {
-        assert forall|a: int| 0 <= a < comb2.len() implies canonical(#[trigger] comb2[a]) by {
-            if a != dl { assert(canonical(comb[if a < dl { a } else { a + k - 1 }])); }
-        }
+}
+
+pub proof fn lemma_merge_canon(cur: Seq<u64>, done: Seq<u64>, i: int, k: int, parent: u64, p: A5Cell)
+    requires merge_pre(cur, done, i, k, parent, p),
+    ensures
+        all_canonical(done.push(parent) + cur.subrange(i + k, cur.len() as int)),
+        forall|m: int| max_res_le(done + cur.subrange(i, cur.len() as int), m)
+            ==> max_res_le(done.push(parent) + cur.subrange(i + k, cur.len() as int), m),
+{
+    let n = cur.len() as int;
+    let comb = done + cur.subrange(i, n);
+    let comb2 = done.push(parent) + cur.subrange(i + k, n);
+    let dl = done.len() as int;
+    lemma_merge_facts(cur, done, i, k, parent, p);
+    assert forall|a: int| 0 <= a < comb2.len() implies canonical(#[trigger] comb2[a]) by {
+        if a != dl { assert(canonical(comb[if a < dl { a } else { a + k - 1 }])); }
     }
     assert forall|m: int| max_res_le(comb, m) implies max_res_le(comb2, m) by {
         assert forall|a: int| 0 <= a < comb2.len() implies res_of(#[trigger] comb2[a]) <= m by {
@@ -312,6 +322,20 @@ pub proof fn lemma_merge_step(cur: Seq<u64>, done: Seq<u64>, i: int, k: int, par
             else { assert(res_of(comb[dl]) <= m); }
         }
     }
+}
+
+pub proof fn lemma_merge_cover(cur: Seq<u64>, done: Seq<u64>, i: int, k: int, parent: u64, p: A5Cell)
+    requires merge_pre(cur, done, i, k, parent, p),
+    ensures
+        forall|y: A5Cell| valid(y) && max_res_le(done + cur.subrange(i, cur.len() as int), y.resolution as int)
+            ==> (covers(done.push(parent) + cur.subrange(i + k, cur.len() as int), y)
+                 <==> covers(done + cur.subrange(i, cur.len() as int), y)),                       // [C08:merge-preserves-cover]
+{
+    let n = cur.len() as int;
+    let comb = done + cur.subrange(i, n);
+    let comb2 = done.push(parent) + cur.subrange(i + k, n);
+    let dl = done.len() as int;
+    lemma_merge_facts(cur, done, i, k, parent, p);
     assert forall|y: A5Cell| valid(y) && max_res_le(comb, y.resolution as int)
         implies (covers(comb2, y) <==> covers(comb, y)) by {
         assert(res_of(comb[dl]) <= y.resolution);
@@ -340,30 +364,57 @@ pub proof fn lemma_merge_step(cur: Seq<u64>, done: Seq<u64>, i: int, k: int, par
             }
         }
     }
-    if antichain(comb) {
-        assert forall|a: int, b: int| 0 <= a < comb2.len() && 0 <= b < comb2.len() && a != b
-            implies !overlap(dec(#[trigger] comb2[a]), dec(#[trigger] comb2[b])) by {
-            let a1 = if a < dl { a } else { a + k - 1 };
-            let b1 = if b < dl { b } else { b + k - 1 };
-            if a != dl && b != dl {
-                assert(comb2[a] == comb[a1] && comb2[b] == comb[b1]);
-                assert(!overlap(dec(comb[a1]), dec(comb[b1])));
-            } else {
-                let o = if a == dl { b } else { a };
-                let o1 = if o < dl { o } else { o + k - 1 };
-                assert(comb2[o] == comb[o1]);
-                let e = dec(comb[o1]);
-                assert(canonical(comb[o1]));
-                lemma_canonical_decodable(comb[o1]);
-                if overlap(p, e) {
-                    let jj = lemma_overlap_parent(p, e);
-                    assert(dec(at(comb, dl, jj)) == sibling(p, jj));
-                    assert(!overlap(dec(comb[dl + jj]), dec(comb[o1])));
-                    assert(false);
-                }
+}
+
+pub proof fn lemma_merge_antichain(cur: Seq<u64>, done: Seq<u64>, i: int, k: int, parent: u64, p: A5Cell)
+    requires merge_pre(cur, done, i, k, parent, p), antichain(done + cur.subrange(i, cur.len() as int)),
+    ensures antichain(done.push(parent) + cur.subrange(i + k, cur.len() as int)),                // [C08:merge-preserves-antichain]
+{
+    let n = cur.len() as int;
+    let comb = done + cur.subrange(i, n);
+    let comb2 = done.push(parent) + cur.subrange(i + k, n);
+    let dl = done.len() as int;
+    lemma_merge_facts(cur, done, i, k, parent, p);
+    assert forall|a: int, b: int| 0 <= a < comb2.len() && 0 <= b < comb2.len() && a != b
+        implies !overlap(dec(#[trigger] comb2[a]), dec(#[trigger] comb2[b])) by {
+        let a1 = if a < dl { a } else { a + k - 1 };
+        let b1 = if b < dl { b } else { b + k - 1 };
+        if a != dl && b != dl {
+            assert(comb2[a] == comb[a1] && comb2[b] == comb[b1]);
+            assert(!overlap(dec(comb[a1]), dec(comb[b1])));
+        } else {
+            let o = if a == dl { b } else { a };
+            let o1 = if o < dl { o } else { o + k - 1 };
+            assert(comb2[o] == comb[o1]);
+            let e = dec(comb[o1]);
+            assert(canonical(comb[o1]));
+            lemma_canonical_decodable(comb[o1]);
+            if overlap(p, e) {
+                let jj = lemma_overlap_parent(p, e);
+                assert(dec(at(comb, dl, jj)) == sibling(p, jj));
+                assert(!overlap(dec(comb[dl + jj]), dec(comb[o1])));
+                assert(false);
             }
         }
     }
+}
+
+/// one merge of compact(): k adjacent entries that are exactly the children of p are replaced by p
+pub proof fn lemma_merge_step(cur: Seq<u64>, done: Seq<u64>, i: int, k: int, parent: u64, p: A5Cell)
+    requires merge_pre(cur, done, i, k, parent, p),
+    ensures
+        all_canonical(done.push(parent) + cur.subrange(i + k, cur.len() as int)),
+        forall|m: int| max_res_le(done + cur.subrange(i, cur.len() as int), m)
+            ==> max_res_le(done.push(parent) + cur.subrange(i + k, cur.len() as int), m),
+        forall|y: A5Cell| valid(y) && max_res_le(done + cur.subrange(i, cur.len() as int), y.resolution as int)
+            ==> (covers(done.push(parent) + cur.subrange(i + k, cur.len() as int), y)
+                 <==> covers(done + cur.subrange(i, cur.len() as int), y)),
+        antichain(done + cur.subrange(i, cur.len() as int))
+            ==> antichain(done.push(parent) + cur.subrange(i + k, cur.len() as int)),
+{
+    lemma_merge_canon(cur, done, i, k, parent, p);
+    lemma_merge_cover(cur, done, i, k, parent, p);
+    if antichain(done + cur.subrange(i, cur.len() as int)) { lemma_merge_antichain(cur, done, i, k, parent, p); }
 }
 
 /// keeping an entry: the combined list does not change
@@ -513,101 +564,5 @@ pub proof fn lemma_maxres_transfer(cur: Seq<u64>, done: Seq<u64>, i: int, k: int
 {
 }
 
-
-// ------------------------------------------------------------------------------------------
-// `refines(a, b)`: list a describes the same region as list b (opaque: compact()'s own queries only
-// move this predicate around; the quantifiers are opened inside the lemmas below)
-// ------------------------------------------------------------------------------------------
-pub open spec fn comb(done: Seq<u64>, cur: Seq<u64>, i: int) -> Seq<u64> { done + cur.subrange(i, cur.len() as int) }
-
-#[verifier::opaque]
-pub open spec fn refines(a: Seq<u64>, b: Seq<u64>) -> bool {
-    &&& all_canonical(a)
-    &&& forall|m: int| max_res_le(b, m) ==> max_res_le(a, m)
-    &&& forall|y: A5Cell| valid(y) && max_res_le(b, y.resolution as int) ==> (covers(a, y) <==> covers(b, y))
-    &&& antichain(b) ==> antichain(a)
-}
-
-pub proof fn lemma_refines_refl(a: Seq<u64>)
-    requires all_canonical(a),
-    ensures refines(a, a),
-{
-    reveal(refines);
-}
-
-pub proof fn lemma_refines_trans(a: Seq<u64>, b: Seq<u64>, c: Seq<u64>)
-    requires refines(a, b), refines(b, c),
-    ensures refines(a, c),
-{
-    reveal(refines);
-    assert forall|y: A5Cell| valid(y) && max_res_le(c, y.resolution as int) implies (covers(a, y) <==> covers(c, y)) by {
-        assert(max_res_le(b, y.resolution as int));
-    }
-}
-
-pub proof fn lemma_comb_start(cur: Seq<u64>)
-    ensures comb(Seq::<u64>::empty(), cur, 0) == cur,
-{
-    assert(comb(Seq::<u64>::empty(), cur, 0) =~= cur);
-}
-
-pub proof fn lemma_comb_end(done: Seq<u64>, cur: Seq<u64>)
-    ensures comb(done, cur, cur.len() as int) == done,
-{
-    assert(comb(done, cur, cur.len() as int) =~= done);
-}
-
-pub proof fn lemma_comb_keep(done: Seq<u64>, cur: Seq<u64>, i: int)
-    requires 0 <= i < cur.len(),
-    ensures comb(done.push(cur[i]), cur, i + 1) == comb(done, cur, i), comb(done, cur, i)[done.len() as int] == cur[i],
-{
-    lemma_keep_step(cur, done, i);
-}
-
-/// the merge performed by compact() keeps the region: the sibling test established that the k entries are
-/// exactly the children of the parent that replaces them
-pub proof fn lemma_comb_merge(done: Seq<u64>, cur: Seq<u64>, i: int, cell: u64, parent: u64)
-    requires
-        refines(comb(done, cur, i), cur),
-        res_of(cell) >= 0, first_child_bits(cell, res_of(cell)),
-        0 <= i, i + group_size(res_of(cell)) <= cur.len(), cur[i] == cell,
-        forall|jj: int| 1 <= jj < group_size(res_of(cell)) ==> #[trigger] cur[i + jj] == cell + jj * stride_of(res_of(cell)),
-        decodable(cell) ==> parent == enc(anc(dec(cell), res_of(cell) - 1)),
-    ensures
-        refines(comb(done.push(parent), cur, i + group_size(res_of(cell))), cur),                 // [C08:merge-keeps-region]
-{
-    let k = group_size(res_of(cell));
-    assert(canonical(cell)) by {
-        reveal(refines);
-        assert(comb(done, cur, i)[done.len() as int] == cell);
-    }
-    lemma_canonical_decodable(cell);
-    lemma_merge_setup(cur, i, cell, parent);
-    let p = parent1(dec(cell));
-    assert(all_canonical(comb(done, cur, i))) by { reveal(refines); }
-    lemma_merge_step(cur, done, i, k, parent, p);
-    let c1 = comb(done, cur, i);
-    let c2 = comb(done.push(parent), cur, i + k);
-    assert(refines(c2, c1)) by { reveal(refines); }
-    lemma_refines_trans(c2, c1, cur);
-}
-
-/// what the caller of compact() gets from `refines(out, sorted-dedup(cells))`
-pub proof fn lemma_compact_final(cells: Seq<u64>, init: Seq<u64>, out: Seq<u64>)
-    requires all_canonical(cells), init.to_set() == cells.to_set(), init.no_duplicates(), refines(out, init),
-    ensures
-        all_canonical(out),
-        forall|m: int| max_res_le(cells, m) ==> max_res_le(out, m),
-        forall|y: A5Cell| valid(y) && max_res_le(cells, y.resolution as int) ==> (covers(out, y) <==> covers(cells, y)),
-        antichain_set(cells) ==> antichain(out) && out.no_duplicates(),
-{
-    reveal(refines);
-    lemma_initial_list(cells, init);
-    assert forall|m: int| max_res_le(cells, m) implies max_res_le(out, m) by { assert(max_res_le(init, m)); }
-    assert forall|y: A5Cell| valid(y) && max_res_le(cells, y.resolution as int) implies (covers(out, y) <==> covers(cells, y)) by {
-        assert(max_res_le(init, y.resolution as int));
-    }
-    if antichain_set(cells) { lemma_antichain_no_dup(out); }
-}
 
 } // verus!
